@@ -375,7 +375,29 @@ pub fn guard<T>(f: impl FnOnce() -> T) -> Result<T, Panic> {
 const SLOTS: usize = 256;
 struct Slot {
 	start_ms: AtomicU64,
+	/// CPU time (ms) the worker thread had consumed when the case started, and the clock to read it again
+	start_cpu_ms: AtomicU64,
+	cpu_clock: AtomicU64,
 	desc: Mutex<String>,
+}
+
+/// CPU time consumed by the thread owning `clock` (ms); 0 if it cannot be read
+fn cpu_ms_of(clock: libc::clockid_t) -> u64 {
+	let mut ts = libc::timespec { tv_sec: 0, tv_nsec: 0 };
+	// SAFETY: plain syscall writing into a local
+	if unsafe { libc::clock_gettime(clock, &mut ts) } != 0 {
+		return 0;
+	}
+	ts.tv_sec as u64 * 1000 + ts.tv_nsec as u64 / 1_000_000
+}
+
+fn my_cpu_clock() -> libc::clockid_t {
+	let mut clock: libc::clockid_t = 0;
+	// SAFETY: pthread_self() is the calling thread; the out-parameter is a local
+	if unsafe { libc::pthread_getcpuclockid(libc::pthread_self(), &mut clock) } != 0 {
+		return libc::CLOCK_THREAD_CPUTIME_ID;
+	}
+	clock
 }
 static SLOT_TABLE: OnceLock<Vec<Slot>> = OnceLock::new();
 static NEXT_SLOT: AtomicU64 = AtomicU64::new(0);
@@ -388,7 +410,7 @@ thread_local! {
 }
 
 fn slots() -> &'static Vec<Slot> {
-	SLOT_TABLE.get_or_init(|| (0..SLOTS).map(|_| Slot { start_ms: AtomicU64::new(0), desc: Mutex::new(String::new()) }).collect())
+	SLOT_TABLE.get_or_init(|| (0..SLOTS).map(|_| Slot { start_ms: AtomicU64::new(0), start_cpu_ms: AtomicU64::new(0), cpu_clock: AtomicU64::new(0), desc: Mutex::new(String::new()) }).collect())
 }
 
 fn now_ms() -> u64 {
@@ -404,6 +426,9 @@ pub fn watched<T>(desc: impl FnOnce() -> String, f: impl FnOnce() -> T) -> T {
 	let idx = MY_SLOT.with(|s| *s);
 	let slot = &slots()[idx];
 	*slot.desc.lock().unwrap() = desc();
+	let clock = my_cpu_clock();
+	slot.cpu_clock.store(clock as u64, Ordering::SeqCst);
+	slot.start_cpu_ms.store(cpu_ms_of(clock), Ordering::SeqCst);
 	slot.start_ms.store(now_ms(), Ordering::SeqCst);
 	let r = f();
 	slot.start_ms.store(0, Ordering::SeqCst);
@@ -418,7 +443,16 @@ fn start_watchdog(prop: String, replay_dir: PathBuf) {
 		let now = now_ms();
 		for slot in slots().iter() {
 			let s = slot.start_ms.load(Ordering::SeqCst);
-			if s != 0 && now.saturating_sub(s) > budget && !WATCHDOG_FIRED.swap(true, Ordering::SeqCst) {
+			if s == 0 || now.saturating_sub(s) <= budget {
+				continue;
+			}
+			// The budget is CPU time of the worker thread, so that a machine busy with other work cannot turn a
+			// healthy case into a timeout; ten budgets of wall time without progress is a hang of any kind.
+			let cpu = cpu_ms_of(slot.cpu_clock.load(Ordering::SeqCst) as libc::clockid_t).saturating_sub(slot.start_cpu_ms.load(Ordering::SeqCst));
+			if slot.start_ms.load(Ordering::SeqCst) != s {
+				continue; // the case finished meanwhile
+			}
+			if (cpu > budget || now.saturating_sub(s) > 10 * budget) && !WATCHDOG_FIRED.swap(true, Ordering::SeqCst) {
 				let desc = slot.desc.lock().map(|d| d.clone()).unwrap_or_default();
 				let _ = std::fs::create_dir_all(&replay_dir);
 				let path = replay_dir.join("timeout.txt");
